@@ -16,6 +16,13 @@ TARGETS = [
     ("fakesnow/info_schema.py", "insert_text_lengths_sql", "fakesnow.info_schema.insert_text_lengths_sql"),
     ("fakesnow/cursor.py", "FakeSnowflakeCursor._log_sql", "fakesnow.cursor.FakeSnowflakeCursor._log_sql"),
     ("fakesnow/cursor.py", "FakeSnowflakeCursor._execute", "fakesnow.cursor.FakeSnowflakeCursor._execute"),
+    ("fakesnow/variables.py", "Variables.inline_variables", "fakesnow.variables.Variables.inline_variables"),
+    ("fakesnow/cursor.py", "FakeSnowflakeCursor._inline_variables", "fakesnow.cursor.FakeSnowflakeCursor._inline_variables"),
+    ("fakesnow/cursor.py", "FakeSnowflakeCursor._rewrite_with_params", "fakesnow.cursor.FakeSnowflakeCursor._rewrite_with_params"),
+    ("fakesnow/cursor.py", "FakeSnowflakeCursor._transform_explode", "fakesnow.cursor.FakeSnowflakeCursor._transform_explode"),
+    ("fakesnow/cursor.py", "FakeSnowflakeCursor._transform", "fakesnow.cursor.FakeSnowflakeCursor._transform"),
+    ("fakesnow/cursor.py", "FakeSnowflakeCursor.execute", "fakesnow.cursor.FakeSnowflakeCursor.execute"),
+    ("fakesnow/cursor.py", "FakeSnowflakeCursor.executemany", "fakesnow.cursor.FakeSnowflakeCursor.executemany"),
 ]
 
 T = {cn.split("fakesnow.", 1)[1]: (rel, q, cn) for rel, q, cn in TARGETS}
